@@ -178,7 +178,7 @@ Proof.
   repeat apply aligned_add; auto. rewrite Z.mul_mod, Hh, Z.mul_0_r by lia. reflexivity.
 Qed.
 
-Theorem desc_aligned sz_y default on_es a ptr :
+Theorem desc_aligned default on_es a ptr :
   ptr mod CL = 0 -> (ym_desc (ythread_create_mem default on_es a ptr)) mod CL = 0.
 Proof.
   intros Hp. assert (HCL : 0 < CL) by (unfold CL; lia).
@@ -196,14 +196,7 @@ Proof.
   split; [|split].
   - replace (top / 16 * 16 - 8 + 8) with (top / 16 * 16) by lia. apply Z.mod_mul. lia.
   - lia.
-  - intros H8. assert (top mod 16 = 0 \/ top mod 16 = 8).
-    { assert (Hm : (top mod 16) mod 8 = 0).
-      { rewrite <- H8. symmetry. change 16 with (8 * 2). rewrite Z.rem_mul_r by lia.
-        rewrite Z.add_comm, Z.mul_comm, Z.mod_add by lia. apply Z.mod_mod. lia. }
-      pose proof (Z.div_mod (top mod 16) 8 ltac:(lia)). rewrite Hm in *.
-      assert (0 <= top mod 16 / 8 < 2) by (split; [apply Z.div_pos; lia|apply Z.div_lt_upper_bound; lia]).
-      lia. }
-    lia.
+  - intros H8. apply Z.mod_divide in H8; [|lia]. destruct H8 as (k & Hk). lia.
 Qed.
 
 Theorem entry_frame_inside lo top : 24 <= top - lo -> lo <= entry_rsp top.
